@@ -424,9 +424,11 @@ Proof.
                                              end)
                        end)).
   - f_equal. apply existsb_ext_in. intros v _. apply existsb_ext_in. intros s _.
-    destruct (sh_breaks s) as [bs|]; [|reflexivity]. rewrite negb_involutive. f_equal.
-    + apply existsb_ext_in. intros b _. now destruct b.
-    + now destruct (sh_latest s).
+    destruct (sh_breaks s) as [bs|]; [|reflexivity]. rewrite negb_involutive.
+    assert (E1 : existsb is_offset_break bs
+                 = existsb (fun b => match b with BOptOff _ | BReqOff _ _ _ => true | _ => false end) bs)
+      by (apply existsb_ext_in; intros b _; now destruct b).
+    rewrite E1. now destruct (sh_latest s).
   - intros v _ s _. unfold e1307_shift. now destruct (sh_breaks s).
 Qed.
 
@@ -451,3 +453,73 @@ Lemma e1504_ok d : check_e1504 d = Some (viol_1504 d).
 Proof. unfold check_e1504, viol_1504. now destruct (d_profiles d). Qed.
 Lemma e1505_ok d : check_e1505 d = Some (viol_1505 d).
 Proof. reflexivity. Qed.
+
+(* ---------- validate = the documented rules, outside the known classes ---------- *)
+Definition spec_result (d : doc) : vres :=
+  match filter (fun c => violates c d) (map fst all_checks) with [] => VOk | cs => VErr cs end.
+
+Lemma known_false d : known d = false ->
+  k1_three_windows d = false /\ k2_unchecked_task_times d = false /\ k3_offset_break_bad_start d = false /\
+  k4_start_latest_bad d = false /\ k5_offset_arity d = false /\ k6_capacity_empty d = false /\ k7_over8 d = false /\
+  k8_empty_demand_vectors d = false /\ k9_no_vehicles d = false /\ k10_no_profiles d = false.
+Proof.
+  unfold known, known_table. cbn [existsb snd]. intros H.
+  repeat (apply orb_false_iff in H; destruct H as [? H]). repeat split; assumption.
+Qed.
+
+Lemma checks_agree d : known d = false -> forall c f, In (c, f) all_checks -> f d = Some (violates c d).
+Proof.
+  intros Hk c f Hin. destruct (known_false d Hk) as (H1 & H2 & H3 & H4 & H5 & H6 & H7 & H8 & H9 & H10).
+  unfold all_checks, jobs_checks, vehicles_checks, routing_checks in Hin. cbn [app In] in Hin.
+  repeat (destruct Hin as [Hin|Hin]; [inversion Hin; subst c f; clear Hin|]); [..|contradiction].
+  - change (violates 1100 d) with (viol_1100 d). apply e1100_ok.
+  - change (violates 1101 d) with (viol_1101 d). apply e1101_ok.
+  - change (violates 1102 d) with (viol_1102 d). now apply e1102_ok.
+  - change (violates 1103 d) with (viol_1103 d). now apply e1103_ok.
+  - change (violates 1104 d) with (viol_1104 d). apply e1104_ok.
+  - change (violates 1105 d) with (viol_1105 d). apply e1105_ok.
+  - change (violates 1106 d) with (viol_1106 d). apply e1106_ok.
+  - change (violates 1107 d) with (viol_1107 d). apply e1107_ok.
+  - change (violates 1300 d) with (viol_1300 d). apply e1300_ok.
+  - change (violates 1301 d) with (viol_1301 d). apply e1301_ok.
+  - change (violates 1302 d) with (viol_1302 d). now apply e1302_ok.
+  - change (violates 1303 d) with (viol_1303 d). now apply e1303_ok.
+  - change (violates 1304 d) with (viol_1304 d). now apply e1304_ok.
+  - change (violates 1306 d) with (viol_1306 d). apply e1306_ok.
+  - change (violates 1307 d) with (viol_1307 d). apply e1307_ok.
+  - change (violates 1308 d) with (viol_1308 d). apply e1308_ok.
+  - change (violates 1500 d) with (viol_1500 d). apply e1500_ok.
+  - change (violates 1501 d) with (viol_1501 d). apply e1501_ok.
+  - change (violates 1504 d) with (viol_1504 d). apply e1504_ok.
+  - change (violates 1505 d) with (viol_1505 d). apply e1505_ok.
+Qed.
+
+Lemma validate_generic (checks : list (Z * (doc -> option bool))) d :
+  (forall c f, In (c, f) checks -> f d = Some (violates c d)) ->
+  existsb (fun r : Z * option bool => is_none (snd r)) (map (fun cf => (fst cf, snd cf d)) checks) = false
+  /\ map fst (filter (fun r : Z * option bool => match snd r with Some true => true | _ => false end)
+                     (map (fun cf => (fst cf, snd cf d)) checks))
+     = filter (fun c => violates c d) (map fst checks).
+Proof.
+  induction checks as [|[c f] r IH]; intros H; [split; reflexivity|].
+  destruct IH as [IH1 IH2]; [intros c' f' Hin; apply H; now right|].
+  cbn [map existsb filter fst snd]. rewrite (H c f) by now left. cbn [is_none orb]. split; [exact IH1|].
+  destruct (violates c d); cbn [map fst]; now rewrite IH2.
+Qed.
+
+Lemma validate_spec d : known d = false -> validate d = spec_result d.
+Proof.
+  intros Hk. destruct (validate_generic all_checks d (checks_agree d Hk)) as [Hn Hc].
+  unfold validate, spec_result. cbv zeta. rewrite Hn, Hc. reflexivity.
+Qed.
+
+Lemma spec_result_cases d :
+  (spec_result d = VOk /\ forall c, In c (map fst all_checks) -> violates c d = false)
+  \/ (exists cs, spec_result d = VErr cs /\ cs <> [] /\ forall c, In c cs <-> In c (map fst all_checks) /\ violates c d = true).
+Proof.
+  unfold spec_result. destruct (filter (fun c => violates c d) (map fst all_checks)) as [|c0 cs] eqn:E.
+  - left. split; [reflexivity|]. intros c Hc. destruct (violates c d) eqn:Ev; [|reflexivity].
+    assert (Hin : In c (filter (fun c => violates c d) (map fst all_checks))) by (apply filter_In; auto).
+    rewrite E in Hin. destruct Hin.
+  - right. exists (c0 :: cs). split; [reflexivity|]. split; [discriminate|]. intros c. rewrite <- E. apply filter_In.
+Qed.
